@@ -22,7 +22,7 @@ EXPLANATION = (
     "C03.11 in free and dispose_chunk every path after `self.top = p` tests p == dv and clears dv/dvsize when it holds (a chunk merged into top is retired as designated victim). "
     "C03.12 insert_large_chunk clears both child pointers of the inserted chunk on every path (also for a chunk that only joins a same-size ring). "
     "C03.13 a chunk found by its address is unlinked only after it was compared with dv (and top, for a following chunk) and found free; C03.14 the two directions of a chunk link (next/prev, child/parent) are written together. "
-    "C03.15 every split / no-split decision compares the remainder with MIN_CHUNK_SIZE. C03.16 sys_alloc extends top in place only for the segment that holds top. "
+    "C03.15 every split / no-split decision compares the remainder with MIN_CHUNK_SIZE. C03.16 sys_alloc extends top in place only for the segment that holds top. C03.17 replace_dv is called only on the small-request paths. C03.18 release_unused_segments does not carry a released segment's record forward as predecessor. "
     "NOT decided: alignment, disjointness and intactness of live blocks - invariants of the bin/tree/segment shape over call histories (the module's own check_malloc_state is a run-time checker); no structural rule in reach establishes them.")
 ASSUMPTIONS = ["dlmalloc's heap-shape invariants hold (not established here)", "MUNMAP returns 0 or -errno"]
 
@@ -514,6 +514,59 @@ def run_one(ck, prog):
             ck.ob("C03.16", "in-place-growth-only-in-the-segment-that-holds-top", holds, fn=sa16["path"], site=c16.site(bb),
                   detail="top is extended in place without `Segment::holds(sp, self.top)` having been established for the segment that grew")
         ck.floor("C03.16", "in-place extensions of top in sys_alloc", n16, 1)
+
+    # ---- C03.17 replace_dv bins the old designated victim as a SMALL chunk (insert_small_chunk, no size test): it is called only on the
+    # small-request paths, where dv was just found too small for a small request - from a large-request path dv may be of any size and
+    # is then filed under a small-bin index past the end of the bin array
+    rdv = DL + "replace_dv"
+    if prog.fns.get(rdv) is not None:
+        callers17 = set(cg.callers.get(rdv, ())) if "cg" in dir() else set(prog.callgraph().callers.get(rdv, ()))
+        allowed17 = {DL + "inner_malloc", DL + "tmalloc_small"}
+        ck.ob("C03.17", "replace_dv-only-on-small-request-paths", callers17 <= allowed17 and bool(callers17), detail=f"callers of replace_dv: {sorted(callers17)}; allowed {sorted(allowed17)}")
+        for cp in sorted(callers17 & {DL + "inner_malloc"}):
+            cc17 = prog.ctx(prog.fns[cp])
+            for bb, t in cc17.cfg.calls(lambda t: t.get("callee") == rdv):
+                fs = panics.dominating_facts(cc17, bb)
+                small = any(f[0] == "cmp" and f[1] in ("Le", "Lt") and mentions(f[3], cc17.prov, lambda z: z[0] == "const" and z[2] and "MAX_SMALL_REQUEST" in str(z[2])) for f in fs)
+                ck.ob("C03.17", "replace_dv|under-a-small-request", small, fn=cp, site=cc17.site(bb), detail="replace_dv in inner_malloc must be dominated by size <= MAX_SMALL_REQUEST")
+
+    # ---- C03.18 a released segment's record is not used again: the record of a non-head segment lives inside that segment, so after a
+    # successful unmap the walk continues from the predecessor (`sp = pred`) - carrying the dead record forward as `pred` makes the next
+    # unlink write into unmapped memory
+    rus = prog.fns.get(DL + "release_unused_segments")
+    if ck.anchor("C03.18", "release_unused_segments", rus):
+        c18_ = prog.ctx(rus)
+        nm18 = {x["p"]["l"]: x["n"] for x in rus.get("names", []) if isinstance(x.get("p", {}).get("l"), int) and not x["p"].get("p")}
+        sp_l = [l for l, n_ in nm18.items() if n_ == "sp"]
+        pred_l = [l for l, n_ in nm18.items() if n_ == "pred"]
+        frees18 = [bb for bb, t in c18_.cfg.calls(lambda t: (t.get("callee") or "") == D + "syscall_free")]
+        if ck.anchor("C03.18", "sp/pred/syscall_free", (sp_l and pred_l and frees18) or None):
+            # blocks that assign sp / blocks that set pred = sp
+            def assigns(loc):
+                return {b["id"] for b in rus["blocks"] if b["id"] in c18_.cfg.live_blocks() and any(s2["k"] == "assign" and not s2["dst"].get("p") and s2["dst"]["l"] in loc for s2 in b["stmts"])}
+            sp_defs = assigns(sp_l)
+            carry = set()
+            for b in rus["blocks"]:
+                if b["id"] not in c18_.cfg.live_blocks():
+                    continue
+                for i2, s2 in enumerate(b["stmts"]):
+                    if s2["k"] == "assign" and not s2["dst"].get("p") and s2["dst"]["l"] in pred_l:
+                        v2 = strip_casts(c18_.prov.rvalue(s2["rv"], (b["id"], i2)))
+                        if s2["rv"]["k"] == "use" and s2["rv"]["a"].get("k") in ("copy", "move") and not s2["rv"]["a"]["p"].get("p") and (s2["rv"]["a"]["p"]["l"] in sp_l or (isinstance(v2, tuple) and v2[0] == "var" and v2[1] in sp_l)):
+                            carry.add(b["id"])
+            # an assignment of sp counts as a reset only when it comes before the hand-over `pred = sp` of the same block
+            def first_idx(b, loc):
+                return min([i2 for i2, s2 in enumerate(b["stmts"]) if s2["k"] == "assign" and not s2["dst"].get("p") and s2["dst"]["l"] in loc] or [10 ** 6])
+            sp_defs = {b["id"] for b in rus["blocks"] if b["id"] in sp_defs and (b["id"] not in carry or first_idx(b, sp_l) < first_idx(b, pred_l))}
+            bad18 = False
+            for fb in frees18:
+                ok_edges = [e for sb in c18_.cfg.live_blocks() if c18_.cfg.term(sb)["k"] == "switch" for e in c18_.cfg.succ[sb] for f in c18_.edge_facts(e)
+                            if f[0] == "truth" and f[2] is True and isinstance(f[1], tuple) and f[1][0] == "call" and f[1][3] == fb]
+                for e in ok_edges:
+                    if carry & c18_.cfg.reachable_from(e.dst, avoid=sp_defs - {e.dst}):
+                        bad18 = True
+            ck.ob("C03.18", "released-record-not-carried-forward", bool(carry) and not bad18, fn=rus["path"],
+                  detail="after syscall_free succeeded `pred = sp` is reached without `sp` having been reset to the predecessor: pred then points into the unmapped segment")
 
     # ---- C03.8 a failed in-place resize leaves the heap untouched ------------------------------------------------------------------------------
     trc = prog.fns.get(DL + "try_realloc_chunk")
